@@ -25,6 +25,7 @@ const (
 	whatReadFailed   = "ByteStream Read of a stored object at a valid offset failed"
 	whatBatchUpd     = "BatchUpdateBlobs per-object status does not reflect whether the data matches its digest"
 	whatBatchRead    = "BatchReadBlobs delivered data that is not the stored object matching its digest"
+	whatBatchLimit   = "BatchReadBlobs served a request exceeding the configured maximum total size"
 	whatFindMissing  = "FindMissingBlobs did not return exactly the requested digests the backend lacks"
 	whatClient       = "client and server back to back do not behave like the backend"
 	whatAC           = "ActionCache Get/Update do not round-trip the stored message"
